@@ -1,5 +1,175 @@
 import GoRes.Model.SendReq
 /-! Helper lemmas for the SendRequest model (C19). -/
 namespace GoRes.SendReq
+open GoRes
+
+/-! ## `isResponse` -/
+
+set_option maxRecDepth 100000 in
+/-- brute force over all byte values: `(c ||| 32) ∉ ['a','z']` iff `c` is not an ASCII letter -/
+theorem or32_not_letter : ∀ c, c < 256 →
+    (decide ((c ||| 32) < 97) || decide ((c ||| 32) > 122)) =
+      !((decide (65 ≤ c) && decide (c ≤ 90)) || (decide (97 ≤ c) && decide (c ≤ 122))) := by
+  decide
+
+theorem isResponse_cons (c : Nat) (r : Str) :
+    isResponse (c :: r) = (decide ((c ||| 32) < 97) || decide ((c ||| 32) > 122)) := rfl
+
+/-! ## `classify` -/
+
+theorem classify_response {d d' : Str} (h : classify d = .response d') :
+    d' = d ∧ isResponse d = true := by
+  unfold classify at h
+  split at h
+  · next hr => exact ⟨by injection h with h; exact h.symm, hr⟩
+  · split at h
+    · split at h <;> cases h
+    · cases h
+
+theorem classify_of_isResponse {d : Str} (h : isResponse d = true) : classify d = .response d := by
+  unfold classify
+  simp [h]
+
+theorem classify_extend_not_response {d : Str} {ms : Int} (h : classify d = .extend ms) :
+    isResponse d = false := by
+  cases hr : isResponse d
+  · rfl
+  · rw [classify_of_isResponse hr] at h; cases h
+
+theorem classify_ignored_not_response {d : Str} (h : classify d = .ignored) :
+    isResponse d = false := by
+  cases hr : isResponse d
+  · rfl
+  · rw [classify_of_isResponse hr] at h; cases h
+
+/-! ## `loop` -/
+
+theorem loop_nil (dl : Int) (exts : List Int) : loop dl exts [] = (.timeout, exts) := rfl
+
+theorem loop_late (dl : Int) (exts : List Int) (t : Int) (d : Str) (rest : List (Int × Str))
+    (h : t ≥ dl) : loop dl exts ((t, d) :: rest) = (.timeout, exts) := by
+  simp [loop, h]
+
+theorem loop_response (dl : Int) (exts : List Int) (t : Int) (d : Str) (rest : List (Int × Str))
+    (ht : t < dl) (hr : isResponse d = true) :
+    loop dl exts ((t, d) :: rest) = (.response d, exts) := by
+  have : ¬ t ≥ dl := by omega
+  simp [loop, this, classify_of_isResponse hr]
+
+theorem loop_extend (dl : Int) (exts : List Int) (t ms : Int) (d : Str) (rest : List (Int × Str))
+    (ht : t < dl) (hc : classify d = .extend ms) :
+    loop dl exts ((t, d) :: rest) = loop (t + ms) (exts ++ [ms]) rest := by
+  have : ¬ t ≥ dl := by omega
+  simp [loop, this, hc]
+
+theorem loop_ignored (dl : Int) (exts : List Int) (t : Int) (d : Str) (rest : List (Int × Str))
+    (ht : t < dl) (hc : classify d = .ignored) :
+    loop dl exts ((t, d) :: rest) = loop dl exts rest := by
+  have : ¬ t ≥ dl := by omega
+  simp [loop, this, hc]
+
+/-- the accumulated extensions are only ever appended to; the outcome does not depend on them -/
+theorem loop_exts (dl : Int) (exts : List Int) (h : List (Int × Str)) :
+    (loop dl exts h).1 = (loop dl [] h).1 ∧ (loop dl exts h).2 = exts ++ (loop dl [] h).2 := by
+  induction h generalizing dl exts with
+  | nil => simp [loop_nil]
+  | cons m rest ih =>
+    obtain ⟨t, d⟩ := m
+    by_cases ht : t ≥ dl
+    · simp [loop_late _ _ _ _ _ ht]
+    · have ht' : t < dl := by omega
+      cases hc : classify d with
+      | response d' =>
+        obtain ⟨rfl, hr⟩ := classify_response hc
+        simp [loop_response _ _ _ _ _ ht' hr]
+      | extend ms =>
+        rw [loop_extend _ exts _ _ _ _ ht' hc, loop_extend _ [] _ _ _ _ ht' hc]
+        have h1 := ih (t + ms) (exts ++ [ms])
+        have h2 := ih (t + ms) ([] ++ [ms])
+        refine ⟨h1.1.trans h2.1.symm, ?_⟩
+        rw [h1.2, h2.2]; simp
+      | ignored =>
+        rw [loop_ignored _ exts _ _ _ ht' hc, loop_ignored _ [] _ _ _ ht' hc]
+        exact ih dl exts
+
+theorem loop_fst (dl : Int) (exts : List Int) (h : List (Int × Str)) :
+    (loop dl exts h).1 = (loop dl [] h).1 := (loop_exts dl exts h).1
+
+theorem loop_snd (dl : Int) (exts : List Int) (h : List (Int × Str)) :
+    (loop dl exts h).2 = exts ++ (loop dl [] h).2 := (loop_exts dl exts h).2
+
+/-- the loop never produces `internalError` -/
+theorem loop_ne_internalError (dl : Int) (exts : List Int) (h : List (Int × Str)) :
+    (loop dl exts h).1 ≠ .internalError := by
+  induction h generalizing dl exts with
+  | nil => simp [loop_nil]
+  | cons m rest ih =>
+    obtain ⟨t, d⟩ := m
+    by_cases ht : t ≥ dl
+    · simp [loop_late _ _ _ _ _ ht]
+    · have ht' : t < dl := by omega
+      cases hc : classify d with
+      | response d' =>
+        obtain ⟨rfl, hr⟩ := classify_response hc
+        simp [loop_response _ _ _ _ _ ht' hr]
+      | extend ms => rw [loop_extend _ exts _ _ _ _ ht' hc]; exact ih _ _
+      | ignored => rw [loop_ignored _ exts _ _ _ ht' hc]; exact ih _ _
+
+/-! ## `tagLookup` on `timeout:"<digits>"` -/
+
+theorem tagLookup_timeout (fuel : Nat) (digits : Str) (hd : ∀ c ∈ digits, c ≠ 34 ∧ c ≠ 92) :
+    tagLookup b!"timeout" (fuel + 1) (b!"timeout:\"" ++ digits ++ [34]) = some digits := by
+  have htw : List.takeWhile (fun c => !decide (c = 34) && !decide (c = 92)) (digits ++ [34]) = digits := by
+    rw [List.takeWhile_append_of_pos (by intro a ha; simpa using hd a ha)]
+    simp
+  simp [tagLookup, htw]
+
+/-! ## `atoi` on digit strings -/
+
+theorem foldl_digits_bound (ds : Str) (acc : Nat) :
+    ds.foldl (fun acc c => acc * 10 + (c - 48)) acc + 1 ≤ (acc + 1) * 10 ^ ds.length ∨
+      ∃ c ∈ ds, ¬ (48 ≤ c ∧ c ≤ 57) := by
+  induction ds generalizing acc with
+  | nil => left; simp
+  | cons c r ih =>
+    by_cases hc : 48 ≤ c ∧ c ≤ 57
+    · rcases ih (acc * 10 + (c - 48)) with h | ⟨x, hx, hx'⟩
+      · left
+        simp only [List.foldl_cons, List.length_cons]
+        refine Nat.le_trans h ?_
+        rw [Nat.pow_succ, Nat.mul_comm (10 ^ r.length) 10, ← Nat.mul_assoc]
+        apply Nat.mul_le_mul_right
+        omega
+      · right; exact ⟨x, List.mem_cons_of_mem _ hx, hx'⟩
+    · right; exact ⟨c, List.mem_cons_self, hc⟩
+
+theorem atoi_digits (digits : Str) (hne : digits ≠ []) (hd : ∀ c ∈ digits, 48 ≤ c ∧ c ≤ 57)
+    (hlen : digits.length ≤ 18) :
+    atoi digits = some ((digits.foldl (fun acc c => acc * 10 + (c - 48)) 0 : Nat) : Int) := by
+  have hbound : digits.foldl (fun acc c => acc * 10 + (c - 48)) 0 + 1 ≤ 10 ^ 18 := by
+    rcases foldl_digits_bound digits 0 with h | ⟨x, hx, hx'⟩
+    · have := Nat.pow_le_pow_right (n := 10) (by decide) hlen
+      omega
+    · exact absurd (hd x hx) hx'
+  have hall : digits.all (fun c => decide (48 ≤ c ∧ c ≤ 57)) = true := by
+    rw [List.all_eq_true]; intro c hc; simpa using hd c hc
+  cases digits with
+  | nil => exact absurd rfl hne
+  | cons c r =>
+    have hc := hd c List.mem_cons_self
+    have h45 : c ≠ 45 := by omega
+    have h43 : c ≠ 43 := by omega
+    unfold atoi
+    split
+    · next heq =>
+      split at heq
+      · next h => injection h with h; exact absurd h h45
+      · next h => injection h with h; exact absurd h h43
+      · injection heq with h1 h2
+        subst h1; subst h2
+        have hn : ¬ List.foldl (fun acc c => acc * 10 + (c - 48)) 0 (c :: r) > 9223372036854775807 := by
+          omega
+        rw [if_neg (by rw [hall]; simp), if_neg hn]
+        simp
 
 end GoRes.SendReq
